@@ -35,10 +35,23 @@ def edit_cases():
         b9a["teams"][0]["workers"][0]["absence"] = [0]
         b9b["teams"][0]["workers"][0]["absence"] = [1]
         out.append((b9a, b9b, "worker-absence-move"))  # a day off moved: same list object, same length, other step
+        b10 = copy.deepcopy(base)
+        b10["teams"][0]["workers"][0]["absence"] = [3]
+        out.append((base, b10, "worker-absence-append-3"))  # used with runs stopped before step 3 and continued
+        b11 = copy.deepcopy(base)
+        b11["teams"][0]["targets"] = [2]
+        out.append((base, b11, "team-replace"))  # team TM0 dissolved and founded again under the same ID with another assignment
         if not any(j == 2 for _, j, _ in links):
             b8 = copy.deepcopy(base)
             b8["links"] = list(links) + [[0, 2, "FS"]]
             out.append((base, b8, "add-link"))
+    # a facility model: the machine's own absence list extended in place between two runs
+    fb = {"tasks": [{"name": "T0", "work": 6.0, "nf": True}, {"name": "T1", "work": 2.0}], "links": [], "components": [{"name": "C0", "tasks": [0]}],
+          "workplaces": [{"name": "WP0", "cap": 1.0, "targets": [0], "facilities": [{"name": "F0", "skills": {"T0": 1.0}, "cost": 2.0}]}],
+          "teams": [{"name": "TM0", "targets": [0, 1], "workers": [{"name": "W0", "skills": {"T0": 1.0}, "fskills": {"F0": 1.0}, "cost": 1.0}, {"name": "W1", "skills": {"T1": 1.0}, "cost": 1.0}]}]}
+    fa = copy.deepcopy(fb)
+    fa["workplaces"][0]["facilities"][0]["absence"] = [2, 3]
+    out.append((fb, fa, "facility-absence-inplace"))
     return out
 
 
@@ -58,6 +71,26 @@ def apply_edit(m, name):
         m.byname["W0"].absence_time_list.append(1)
     elif name == "worker-absence-move":
         m.byname["W0"].absence_time_list[0] = 1
+    elif name == "worker-absence-append-3":
+        m.byname["W0"].absence_time_list.append(3)
+    elif name == "facility-absence-inplace":
+        lst = m.byname["F0"].absence_time_list
+        lst += [2, 3]
+    elif name == "team-replace":
+        from pDESy.model.base_team import BaseTeam
+
+        old = m.byname["TM0"]
+        new = BaseTeam(name=old.name, ID=old.ID)
+        for w in list(old.worker_list):
+            new.add_worker(w)
+        new.append_targeted_task(m.byname["T2"])
+        for t in m.tasks:
+            if old in t.allocated_team_list:
+                t.allocated_team_list.remove(old)
+        org = m.project.organization
+        org.team_list[org.team_list.index(old)] = new
+        m.teams[m.teams.index(old)] = new
+        m.byname["TM0"] = new
     elif name == "move-worker":
         w = m.byname["W1"]
         m.byname["TM1"].worker_list.remove(w)
